@@ -77,6 +77,7 @@ class MethodEffects:
     self_calls: list = field(default_factory=list)  # (method name, node)
     invalidates: Optional[list] = None  # None = undecorated
     dec_node: Optional[ast.AST] = None
+    helper: bool = False  # private, undecorated, only reached through other methods
 
 
 class NetModel:
@@ -114,6 +115,69 @@ class NetModel:
         self.effects: dict[str, MethodEffects] = {}
         for name, fi in self.methods.items():
             self.effects[name] = self._method_effects(fi)
+        self._propagate_helpers()
+
+    def _propagate_helpers(self) -> None:
+        """Graph writes made by a private, undecorated helper count as writes of the
+        methods that call it (with the constants the call site passes, e.g. the attribute
+        key); the helper itself is not an entry point with an obligation of its own."""
+        called_by: dict = {}
+        for m, e in self.effects.items():
+            for h, call in e.self_calls:
+                called_by.setdefault(h, []).append((m, call))
+        for _ in range(3):  # helpers calling helpers
+            for h, sites in called_by.items():
+                he = self.effects.get(h)
+                if he is None or he.invalidates is not None or not h.startswith("_") or h.startswith("__"):
+                    continue
+                for m, call in sites:
+                    if m == h:
+                        continue
+                    env = {}
+                    params = [a.arg for a in he.fi.node.args.args][1:]
+                    for prm, a in zip(params, call.args):
+                        c = self.const_of(a)
+                        if c is not None:
+                            env[prm] = c
+                    for kw in call.keywords:
+                        c = self.const_of(kw.value) if kw.arg else None
+                        if c is not None:
+                            env[kw.arg] = c
+                    self._env = env
+                    try:
+                        sub = self._method_effects(he.fi)
+                    finally:
+                        self._env = {}
+                    me = self.effects[m]
+                    have = {(id(w.node), frozenset(w.facets)) for w in me.writes}
+                    for w in sub.writes:
+                        nw = Write(w.facets, call, f"{short(call, 50)} -> {w.desc}", _pos(call))
+                        if (id(call), frozenset(w.facets)) not in have:
+                            me.writes.append(nw)
+                            have.add((id(call), frozenset(w.facets)))
+                    he.helper = he.helper or bool(sub.writes or he.writes)
+
+    def decorator_names(self, fi: FunctionInfo):
+        """(decorator node, names of the cached lookups an `invalidate_cache(...)` lists) or
+        (None, None); `*NAMES` with NAMES a class-level tuple of lookups is expanded"""
+        for d in fi.node.decorator_list:
+            if isinstance(d, ast.Call) and (dotted_name(d.func) or "").split(".")[-1] == "invalidate_cache":
+                names = []
+                for a in d.args:
+                    if isinstance(a, ast.Name):
+                        names.append(a.id)
+                    elif isinstance(a, ast.Starred):
+                        v = a.value
+                        if isinstance(v, ast.Name) and v.id in self.ci.attrs:
+                            v = self.ci.attrs[v.id]
+                        if isinstance(v, (ast.Tuple, ast.List)) and all(isinstance(x, ast.Name) for x in v.elts):
+                            names.extend(x.id for x in v.elts)
+                        else:
+                            raise AnalysisError(f"unresolved *argument of invalidate_cache at {fi.qualname}")
+                    else:
+                        raise AnalysisError(f"non-name argument of invalidate_cache at {fi.qualname}")
+                return d, names
+        return None, None
 
     # -------------------------------------------------------------- helpers
     def _is_alias(self, prop: str, attr: str) -> bool:
@@ -298,21 +362,7 @@ class NetModel:
     # ------------------------------------------------------- method effects
     def _method_effects(self, fi: FunctionInfo) -> MethodEffects:
         me = MethodEffects(fi)
-        for d in fi.node.decorator_list:
-            if isinstance(d, ast.Call) and dotted_name(d.func) in (
-                "invalidate_cache",
-                "funcs.invalidate_cache",
-            ):
-                me.dec_node = d
-                names = []
-                for a in d.args:
-                    if isinstance(a, ast.Name):
-                        names.append(a.id)
-                    else:
-                        raise AnalysisError(
-                            f"non-name argument of invalidate_cache at {fi.qualname}"
-                        )
-                me.invalidates = names
+        me.dec_node, me.invalidates = self.decorator_names(fi)
         for n in ast.walk(fi.node):
             # ---- calls on the graph object
             if isinstance(n, ast.Call) and isinstance(n.func, ast.Attribute):
@@ -323,7 +373,7 @@ class NetModel:
                         facets = set(NX_WRITE_TABLE[meth])
                         for kw in n.keywords:
                             if kw.arg is None:
-                                items = sigs.static_kw_keys(kw.value, self.consts)
+                                items = sigs.static_kw_keys(kw.value, {**self.consts, **getattr(self, "_env", {})})
                                 if items is None:
                                     facets |= {"attr:*"}
                                 else:
